@@ -92,15 +92,15 @@ FAMILIES = {
     "C37": ["srcfac"],
     "C10": ["seqcomp"],
     "C24": ["mcast"],
-    "C22": ["replay"],
+    "C22": ["replay", "schedobs"],
     "C32": ["schedobs"],
     "C40": ["op", "resrc"],
     "C08": ["opacity"],
     "C05": ["op"],
     "C06": ["op"],
     "C07": ["slice"],
-    "C11": ["op"],
-    "C12": ["op"],
+    "C11": ["op", "flatwire"],
+    "C12": ["op", "flatwire"],
     "C13": ["op"],
     "C16": ["op", "timedextra", "grouping"],
     "C17": ["op", "seqlemma", "timedextra"],
@@ -117,6 +117,79 @@ FAMILIES = {
     "C21": ["class"],
     "C23": ["class"],
 }
+
+
+#: callee contracts: the container / subject classes whose contracts the proofs of a property's units USE (the K1 harness, the
+#: sequential-composition and multicast harnesses run the callers against these contracts, not against the bodies).  A property's
+#: check re-runs the units that prove those contracts, so a change inside a callee that breaks the property fails here as well,
+#: under the callee's own obligation.  Which classes: the ones the property's files import (read from the tree on every run).
+CALLEE_CLASSES = {
+    "SerialDisposable": ("monitor", "SerialDisposable"), "SingleAssignmentDisposable": ("monitor", "SingleAssignmentDisposable"),
+    "MultipleAssignmentDisposable": ("monitor", "MultipleAssignmentDisposable"), "CompositeDisposable": ("monitor", "CompositeDisposable"),
+    "RefCountDisposable": ("monitor", "RefCountDisposable"), "Subject": ("class", "Subject"),
+}
+#: properties whose units are function / class proofs against these contracts (the others own the classes or do not use them)
+CALLEE_USERS = ("C05", "C06", "C09", "C10", "C11", "C12", "C13", "C15", "C16", "C17", "C18", "C19", "C24", "C40")
+
+
+#: properties decided by proofs about one subscription of one operator application: the frame condition that carries them to
+#: every subscription / application is checked for their own files (frame.run_local)
+STATE_ALLOCATION = ("C05", "C06", "C07", "C09", "C10", "C11", "C12", "C13", "C15", "C16", "C17", "C18", "C19", "C37", "C40")
+
+
+def _property_files(prop):
+    import json
+    import os
+
+    files = set()
+    here = os.path.dirname(os.path.dirname(os.path.abspath(__file__)))
+    try:
+        for ln in open(os.path.join(here, "properties.jsonl")):
+            d = json.loads(ln)
+            if d["id"] == prop:
+                files.update(f for f in d["anchors"]["files"] if f.endswith(".py"))
+    except OSError:
+        pass
+    for m in OP_MODULES:
+        for c in getattr(importlib.import_module(m), "CONTRACTS", []):
+            if prop in c.props:
+                files.add(c.file)
+    return sorted(files)
+
+
+def callee_units(prop, have):
+    import ast
+    import os
+
+    from .loader import REPO
+
+    if prop not in CALLEE_USERS:
+        return []
+    wanted = []
+    for rel in _property_files(prop):
+        try:
+            tree = ast.parse(open(os.path.join(REPO, rel)).read())
+        except (OSError, SyntaxError):
+            continue
+        for n in ast.walk(tree):
+            if isinstance(n, ast.ImportFrom) and n.module and n.module.startswith("reactivex"):
+                for a in n.names:
+                    if a.name in CALLEE_CLASSES and a.name not in wanted:
+                        wanted.append(a.name)
+    out = []
+    for cls in sorted(wanted):
+        kind, name = CALLEE_CLASSES[cls]
+        pool = []
+        if kind == "monitor":
+            for m in MONITOR_MODULES:
+                pool += [({"runner": "monitor", "module": m, "name": c.name, "prop": prop, "id": c.uid}) for c in importlib.import_module(m).MONITORS
+                         if c.name == name or (name == "RefCountDisposable" and c.name == "InnerDisposable")]
+        else:
+            for m in CLASS_MODULES:
+                pool += [({"runner": "classref", "module": m, "name": c.name, "prop": prop, "id": c.uid}) for c in importlib.import_module(m).CLASSES
+                         if c.name == name]
+        out += [u for u in pool if u["id"] not in have]
+    return out
 
 
 def units_for(prop, tier):
@@ -138,6 +211,8 @@ def units_for(prop, tier):
         us.append({"runner": "timedextra", "prop": prop, "id": f"timed-operators-not-under-contract/{prop}"})
     if "grouping" in fams:
         us.append({"runner": "grouping", "prop": prop, "id": f"grouping-wiring/{prop}"})
+    if "flatwire" in fams:
+        us.append({"runner": "flatwire", "prop": prop, "id": f"composition-wiring/{prop}"})
     if "scheddisp" in fams:
         us.append({"runner": "scheddisp", "prop": prop, "id": "reactivex/disposable/scheduleddisposable.py::ScheduledDisposable"})
     if "compose" in fams:
@@ -188,6 +263,9 @@ def units_for(prop, tier):
         us.append({"runner": "frame", "prop": prop, "id": f"frame-conditions/{prop}"})
     if "subscribe" in fams:
         us.append({"runner": "subscribe_unit", "prop": prop, "id": "reactivex/observable/observable.py::Observable.subscribe"})
+    us += callee_units(prop, {u["id"] for u in us})
+    if prop in STATE_ALLOCATION:
+        us.append({"runner": "frame", "mode": "local", "prop": prop, "files": _property_files(prop), "id": f"state-allocation/{prop}"})
     for u in us:
         u["tier"] = tier
     return us
